@@ -201,13 +201,13 @@ def evm_grid(ctx, differ):
         shapes += [("bin", op, x, y), ("bin", op, x, x), ("bin", op, c1, x), ("bin", op, x, c1), ("bin", op, c1, c2)]
         shapes += [("bin", op, c1, ("lit", c)) for c in cxl] + [("bin", op, ("lit", c), c1) for c in cxl]
         if ctx.tier != "thorough":
-            keep = set(rnd.sample(range(len(shapes)), len(shapes) // 2))
+            keep = set(rnd.sample(range(len(shapes)), len(shapes) // 3))
         for i, s in enumerate(shapes):
             for cn in CONTEXTS + BRANCH_CONTEXTS:
                 if ctx.tier != "thorough" and i not in keep and cn not in ("value", "if") and \
                         not (op == "or" and cn in BRANCH_CONTEXTS):
                     continue
-                d = differ.run_shape(s, cn, rnd, max_inputs=16 if ctx.tier != "thorough" else 40)
+                d = differ.run_shape(s, cn, rnd, max_inputs=12 if ctx.tier != "thorough" else 40)
                 n += 1
                 if d is None:
                     continue
@@ -272,7 +272,7 @@ def tree_tie(ctx, differ):
     from vyper.compiler.settings import Settings, anchor_settings
     from vyper.exceptions import CompilerPanic
     rnd = ctx.rng("trees")
-    want = 500 if ctx.tier != "thorough" else 6000
+    want = 400 if ctx.tier != "thorough" else 6000
     cases = []
     while len(cases) < want:
         t = c15_tree.gen_tree(rnd, rnd.choice([2, 3, 4, 5]))
@@ -295,7 +295,7 @@ def tree_tie(ctx, differ):
                         node = IRnode.from_list(t)
                         cases.append((t, "cancun", c15_tree.coq_of_node(node), c15_tree.show_node(node)))
     # generated seq lists made of mergeable runs (exact-output tie of the merge functions through optimize)
-    nseq = 250 if ctx.tier != "thorough" else 2000
+    nseq = 200 if ctx.tier != "thorough" else 2000
     k = 0
     while k < nseq:
         body = []
@@ -527,6 +527,8 @@ def semantics_tie(ctx):
     from vlib.evm import Chain
     rnd = ctx.rng("semtie")
     g = [0, 1, 2, 31, 32, 33, 255, 256, HALF - 1, HALF, HALF + 1, W - 33, W - 32, W - 2, W - 1, rnd.randrange(W), rnd.randrange(W)]
+    if ctx.tier != "thorough":      # quick: 12 of the 17 operand values (the ends always)
+        g = [0, 1, HALF - 1, HALF, W - 2, W - 1] + rnd.sample(g[2:8] + g[10:13] + g[15:], 6)
     ops2 = BOPS_ARITH + ["shl", "shr", "sar"]
     ge = [0, 1, 2, 3, 255, 256, 257]        # exponents: modular exponentiation with 256-bit exponents is slow in vm_compute
     exprs = [f"map (fun p => bop_sem B_{o} (fst p) (snd p)) (list_prod G {'GE' if o == 'exp' else 'G'})" for o in ops2]
